@@ -61,7 +61,7 @@ func (c *ctx) baseProfile() world.Profile {
 		p.BigBody = true
 	}
 	if c.chance(0.15) {
-		p.ManyTargets = 1
+		p.ManyTargets = []int{5, 12, 130}[c.n(3)]
 	}
 	return p
 }
@@ -113,6 +113,36 @@ func tokenBounds(name string, text []byte) []int {
 	return out
 }
 
+// hotCuts returns offsets right after punctuation where half-typed input is
+// interesting: "::", ".", "=", "[", "(", "{", ",", quote, "${", ":" and the
+// middle of identifiers that contain "::".
+func hotCuts(text []byte) []int {
+	var out []int
+	for i := 0; i < len(text); i++ {
+		switch text[i] {
+		case '.', '=', '[', '(', '{', ',', '"', '?':
+			out = append(out, i+1)
+		case ':':
+			out = append(out, i+1)
+			if i+1 < len(text) && text[i+1] == ':' {
+				// also a couple of characters into the next name segment
+				out = append(out, i+2, i+3, i+4)
+			}
+		case '$':
+			if i+1 < len(text) && text[i+1] == '{' {
+				out = append(out, i+2)
+			}
+		}
+	}
+	var ok []int
+	for _, o := range out {
+		if o <= len(text) {
+			ok = append(ok, o)
+		}
+	}
+	return ok
+}
+
 type tok struct{ s, e int }
 
 func tokens(name string, text []byte) []tok {
@@ -136,9 +166,16 @@ func (c *ctx) typing(pi, fi, count int, chk func() *h.Check) {
 	bounds := tokenBounds(r.Name, r.Text)
 	for i := 0; i < count; i++ {
 		var cut int
-		switch c.n(3) {
+		hot := hotCuts(r.Text)
+		switch c.n(4) {
 		case 0:
 			cut = c.n(n + 1)
+		case 1:
+			if len(hot) > 0 {
+				cut = hot[c.n(len(hot))]
+				break
+			}
+			fallthrough
 		default:
 			if len(bounds) > 0 {
 				cut = bounds[c.n(len(bounds))]
@@ -257,6 +294,7 @@ func init() {
 func genC01(c *ctx) {
 	p := c.baseProfile()
 	p.Odd = c.chance(0.6)
+	p.HalfTyped = []float64{0, 0.03, 0.1}[c.n(3)]
 	c.makeWorld(p)
 	stride := 3
 	if c.thorough() {
@@ -293,6 +331,7 @@ func genC03(c *ctx) {
 	p := c.baseProfile()
 	p.BigBody = c.chance(0.5)
 	p.MaxAttrs = 3 + c.n(12)
+	p.HalfTyped = []float64{0, 0, 0.05}[c.n(3)]
 	c.makeWorld(p)
 	stride := 11
 	if c.thorough() {
